@@ -36,14 +36,27 @@ def split_problems(part_name, parent, kids, dim):
         if len(kd) != d or any(len(iv) != 2 for iv in kd):
             return [("C02:child_box_has_wrong_shape", {"box": repr(kd)[:100]})]
     if part_name == "DimBin":
-        halves = []
+        # children = all 2^d combinations of a lower half [lo, m_j] and an upper half [m_j, hi] per dimension, with one
+        # common cut m_j per dimension (bit-identical in all children) at the middle of the side up to rounding
+        cuts = []
         for j in range(d):
             lo, hi = pd[j]
-            mid = (lo + hi) / 2
-            halves.append([(lo, mid), (mid, hi)])
-        want_boxes = sorted(itertools.product(*halves))
+            D = sorted({(k.get_domain()[j][0], k.get_domain()[j][1]) for k in kids})
+            ok = (len(D) == 2 and D[0][0] == lo and D[0][1] == D[1][0] and D[1][1] == hi) or (
+                len(D) == 1 and lo == hi and D[0] == (lo, hi))
+            if not ok:
+                bad.append(("C02:children_are_not_the_2^d_half_boxes", {"parent": pd, "dimension": j,
+                                                                        "intervals": D[:4]}))
+                return bad
+            m = D[0][1]
+            w = (hi - lo) / 2
+            tol = 4 * float(np.spacing(max(abs(lo), abs(hi), abs(w)))) + 2 * float(np.spacing(abs(w)))
+            if not (lo <= m <= hi) or abs((m - lo) - w) > tol:
+                bad.append(("C02:children_of_equal_size_partition_differ_in_width", {"cut": m, "parent": pd[j]}))
+            cuts.append([(lo, m), (m, hi)])
+        want_boxes = sorted(itertools.product(*cuts))
         have = sorted(tuple((iv[0], iv[1]) for iv in k.get_domain()) for k in kids)
-        if have != want_boxes:
+        if not bad and have != want_boxes:
             bad.append(("C02:children_are_not_the_2^d_half_boxes", {"parent": pd, "first_child": kids[0].get_domain()}))
     else:
         found, why = False, []
